@@ -254,5 +254,8 @@ def renderFnPath (steps : List Step) : String :=
 /-- `path` of a parent-less node (`self.parent is None` branches) -/
 def orphanSteps : Node → List Step
   | n => [childStep n 1]
+/-- `AttributeNode.path` / `NamespaceNode.path` with `self.parent is None` -/
+def orphanAttrSteps (nm : Name) : List Step := [.attr nm]
+def orphanNsSteps (pfx : String) : List Step := [.ns pfx]
 
 end EPV.NodePath
